@@ -6,8 +6,17 @@ import (
 	"encoding/binary"
 	"net/http"
 	"net/http/httptest"
+	"os"
+	"path/filepath"
+	"reflect"
+	"sort"
+	"strconv"
+	"strings"
+	"sync"
 	"testing"
 	"time"
+
+	"pgregory.net/rapid"
 
 	"github.com/q191201771/lal/pkg/base"
 	"github.com/q191201771/lal/pkg/gb28181"
@@ -33,10 +42,27 @@ func fuzzServer() *inproc.Server {
 	return inproc.New(inproc.Config{RtmpGopNum: 1, FlvGopNum: 1, TsGopNum: 1})
 }
 
+// fuzzer is what a target needs of *testing.F; the seed replay (TestFuzzSeeds) passes a collector instead.
+type fuzzer interface {
+	Add(args ...any)
+	Fuzz(ff any)
+}
+
+// seedReplay is set while TestFuzzSeeds runs a target's body outside go's fuzzing engine: a violation is then handed
+// back to the property-test driver instead of failing the *testing.T.
+var seedReplay bool
+
+type seedViolation struct{ v *pbt.Violation }
+type seedSkip struct{}
+
 func fuzzFail(t *testing.T, v *pbt.Violation) {
-	if v != nil {
-		t.Fatalf("FUZZ-VIOLATION sig=%s %s", v.Sig, v.Detail)
+	if v == nil {
+		return
 	}
+	if seedReplay {
+		panic(seedViolation{v})
+	}
+	t.Fatalf("FUZZ-VIOLATION sig=%s %s", v.Sig, v.Detail)
 }
 
 var rtspFuzzStages = []RtspCase{
@@ -49,7 +75,9 @@ var rtspFuzzStages = []RtspCase{
 }
 
 // FuzzRtspCommand: bytes after a valid RTSP publisher prefix, to lal's RTSP accept handler.
-func FuzzRtspCommand(f *testing.F) {
+func FuzzRtspCommand(f *testing.F) { fuzzRtspCommand(f) }
+
+func fuzzRtspCommand(f fuzzer) {
 	st := &rtpGenState{}
 	_ = st
 	f.Add(byte(0), []byte("OPTIONS rtsp://127.0.0.1:5544/live/c13hostile RTSP/1.0\r\nCSeq: 1\r\n\r\n"))
@@ -78,14 +106,16 @@ func FuzzRtspCommand(f *testing.F) {
 		conn.CloseWrite()
 		if !conn.WaitPeerDone(30 * time.Second) {
 			fuzzFail(t, s.PanicViolation())
-			t.Fatalf("FUZZ-VIOLATION sig=session-never-returns/rtsp")
+			fuzzFail(t, pbt.V("session-never-returns/rtsp", "fuzz target"))
 		}
 		fuzzFail(t, s.PanicViolation())
 	})
 }
 
 // FuzzRtspWebsocket: bytes after the WebSocket upgrade (sel: with a valid framed OPTIONS first / plain).
-func FuzzRtspWebsocket(f *testing.F) {
+func FuzzRtspWebsocket(f *testing.F) { fuzzRtspWebsocket(f) }
+
+func fuzzRtspWebsocket(f fuzzer) {
 	n := 0
 	opt := WsFrame{Req: &Req{Method: "OPTIONS", Uri: feedUri}, Fin: true, Opcode: 2, Masked: true, CutTo: -1}.Bytes(&n)
 	f.Add(byte(0), opt)
@@ -113,7 +143,7 @@ func FuzzRtspWebsocket(f *testing.F) {
 		conn.CloseWrite()
 		if !wait(30 * time.Second) {
 			fuzzFail(t, s.PanicViolation())
-			t.Fatalf("FUZZ-VIOLATION sig=session-never-returns/ws-rtsp")
+			fuzzFail(t, pbt.V("session-never-returns/ws-rtsp", "fuzz target"))
 		}
 		fuzzFail(t, s.PanicViolation())
 	})
@@ -121,7 +151,7 @@ func FuzzRtspWebsocket(f *testing.F) {
 
 type fuzzRtspObserver struct{ rm *remux.AvPacket2RtmpRemuxer }
 
-func (o fuzzRtspObserver) OnSdp(sdpCtx sdp.LogicContext)    { o.rm.OnSdp(sdpCtx) }
+func (o fuzzRtspObserver) OnSdp(sdpCtx sdp.LogicContext)     { o.rm.OnSdp(sdpCtx) }
 func (o fuzzRtspObserver) OnRtpPacket(pkt rtprtcp.RtpPacket) {}
 func (o fuzzRtspObserver) OnAvPacket(pkt base.AvPacket)      { o.rm.OnAvPacket(pkt) }
 
@@ -132,7 +162,9 @@ func (nopInterleavedWriter) WriteInterleavedPacket(packet []byte, channel int) e
 // FuzzSdp: the SDP parser, what an RTSP publisher session builds from an accepted description (unpackers, RR
 // producers, the group's rtsp->rtmp remuxer with its sequence headers) and then RTP / RTCP packets ([len16 packet]*,
 // odd index = RTCP) through that session: the chain "SDP parameter -> unpacker state -> packet".
-func FuzzSdp(f *testing.F) {
+func FuzzSdp(f *testing.F) { fuzzSdp(f) }
+
+func fuzzSdp(f fuzzer) {
 	frames := func(ps ...[]byte) []byte {
 		var out []byte
 		for _, p := range ps {
@@ -189,7 +221,9 @@ func FuzzSdp(f *testing.F) {
 }
 
 // FuzzPsRtp: [len16 packet]* fed to the GB28181 PS unpacker wired to a real group.
-func FuzzPsRtp(f *testing.F) {
+func FuzzPsRtp(f *testing.F) { fuzzPsRtp(f) }
+
+func fuzzPsRtp(f fuzzer) {
 	frame := func(pk [][]byte) []byte {
 		var out []byte
 		for _, p := range pk {
@@ -234,7 +268,9 @@ func FuzzPsRtp(f *testing.F) {
 
 // FuzzHttpRequest: a raw HTTP request, as net/http parses it, to the HTTP-FLV/TS subscriber handler (sel 0) and
 // the HLS handler with / without session mode (sel 1, 2).
-func FuzzHttpRequest(f *testing.F) {
+func FuzzHttpRequest(f *testing.F) { fuzzHttpRequest(f) }
+
+func fuzzHttpRequest(f fuzzer) {
 	f.Add(byte(0), []byte("GET /live/c13feed.flv HTTP/1.1\r\nHost: 127.0.0.1:8080\r\n\r\n"))
 	f.Add(byte(0), []byte("GET /live/c13feed.ts?a=b HTTP/1.1\r\nHost: 127.0.0.1:8080\r\nConnection: Upgrade\r\nUpgrade: websocket\r\nSec-WebSocket-Key: dGhlIHNhbXBsZSBub25jZQ==\r\n\r\n"))
 	f.Add(byte(1), []byte("GET /hls/c13feed.m3u8 HTTP/1.1\r\nHost: 127.0.0.1:8080\r\n\r\n"))
@@ -265,7 +301,7 @@ func FuzzHttpRequest(f *testing.F) {
 			case <-done:
 			case <-time.After(30 * time.Second):
 				fuzzFail(t, s.PanicViolation())
-				t.Fatalf("FUZZ-VIOLATION sig=session-never-returns/http-sub")
+				fuzzFail(t, pbt.V("session-never-returns/http-sub", "fuzz target"))
 			}
 		default:
 			key := ""
@@ -284,6 +320,9 @@ var fuzzLast time.Time
 
 func fuzzClient(t *testing.T, segs []segment, pull func(addr string), marker string) {
 	if l, err := theHostileListener(); l == nil {
+		if seedReplay {
+			panic(seedSkip{})
+		}
 		t.Skipf("no loopback listener: %v", err)
 	}
 	// at most ~200 connections per second and worker: every connection leaves a TIME-WAIT socket behind for a minute,
@@ -297,14 +336,16 @@ func fuzzClient(t *testing.T, segs []segment, pull func(addr string), marker str
 	pull(hs.Addr)
 	if !hs.waitServed(1, 12*time.Second) && hs.attempts() >= 1 {
 		if spin, stack := spinningGoroutine(marker, 4, time.Second); spin {
-			t.Fatalf("FUZZ-VIOLATION sig=client-session-spins %s", head(stack, 1500))
+			fuzzFail(t, pbt.V("client-session-spins", "%s", head(stack, 1500)))
 		}
 	}
 }
 
 // FuzzRtmpClient: the chunk stream an RTMP origin sends after the handshake (sel: nothing / connect result /
 // + createStream result / + play start before it).  A crash of lal's read loop kills the fuzz worker.
-func FuzzRtmpClient(f *testing.F) {
+func FuzzRtmpClient(f *testing.F) { fuzzRtmpClient(f) }
+
+func fuzzRtmpClient(f fuzzer) {
 	stages := []string{"none", "connected", "created", "playing"}
 	for i, m := range []RMsg{{Type: 4, Body: Blob{Hex: "000600000001"}, Csid: 2}, {Type: 3, Body: Blob{Hex: "00001000"}, Csid: 2}, {Type: 20, Cmd: "onStatus", Body: Blob{Hex: "05"}, Csid: 3},
 		{Type: 9, Body: Blob{Hex: "27010000000000000565aabbccddee"}, Csid: 6, Msid: 1}, {Type: 18, Body: Blob{Hex: "02000a6f6e4d65746144617461080000000000000009"}, Csid: 5, Msid: 1}} {
@@ -338,7 +379,9 @@ func (nopRtspObserver) OnSdp(sdpCtx sdp.LogicContext) {}
 
 // FuzzRtspClient: what an RTSP server sends after a valid OPTIONS/DESCRIBE/SETUP/PLAY exchange (sel selects how far
 // the valid responses go and the transport), through a real relay pull of a real group.
-func FuzzRtspClient(f *testing.F) {
+func FuzzRtspClient(f *testing.F) { fuzzRtspClient(f) }
+
+func fuzzRtspClient(f fuzzer) {
 	f.Add(byte(4), Frame{Chan: 0, DeclLen: -1, Rtp: &RtpSpec{Ver: 2, PT: 96, Seq: 1, TS: 1, SSRC: 1, Payload: Blob{Hex: "6588840021"}, CutTo: -1}}.Bytes())
 	f.Add(byte(4), Frame{Chan: 1, DeclLen: -1, Rtcp: &RtcpSpec{Type: 200, SSRC: 1, Len: 28}}.Bytes())
 	f.Add(byte(1), RResp{Status: "200", Reason: "OK", Hdrs: [][2]string{{"Content-Type", "application/sdp"}}, Sdp: &Sdp{DropLine: -1, DupLine: -1, Tracks: []SdpTrack{{Media: "video", PT: 96, Enc: "H264", Clock: 90000, Control: "streamid=0"}}}}.Bytes(2))
@@ -361,7 +404,9 @@ func FuzzRtspClient(f *testing.F) {
 }
 
 // FuzzHttpflvClient: the HTTP response (status line, headers, FLV body) an HTTP-FLV origin sends.
-func FuzzHttpflvClient(f *testing.F) {
+func FuzzHttpflvClient(f *testing.F) { fuzzHttpflvClient(f) }
+
+func fuzzHttpflvClient(f fuzzer) {
 	c := FlvSrvCase{StatusLine: "HTTP/1.1 200 OK", FlvHeader: "464c5601050000000900000000", Mut: Mut{Trunc: -1},
 		Tags: []FlvTagSpec{{Type: 9, Body: Blob{Hex: "170000000001"}, DeclSize: -1, PrevSize: -1}, {Type: 8, Body: Blob{Hex: "af001210"}, DeclSize: -1, PrevSize: -1}}}
 	f.Add(c.wire("127.0.0.1:1", 5))
@@ -380,5 +425,139 @@ func FuzzHttpflvClient(f *testing.F) {
 			}
 			_ = sess.Dispose()
 		}, "httpflv.(*PullSession)")
+	})
+}
+
+// ---- seed replay in the quick tier ---------------------------------------------------------------------------------
+//
+// The driver runs `-test.run ^Test` in the quick tier, so go's own replay of the f.Add seeds and of the saved fuzz corpus
+// (corpus/c13/fuzz/<Target>/*, go's corpus file format) never happens there.  TestFuzzSeeds feeds every seed once
+// through the body of its target.
+
+var fuzzTargets = map[string]func(fuzzer){
+	"FuzzRtspCommand": fuzzRtspCommand, "FuzzRtspWebsocket": fuzzRtspWebsocket, "FuzzSdp": fuzzSdp, "FuzzPsRtp": fuzzPsRtp,
+	"FuzzHttpRequest": fuzzHttpRequest, "FuzzRtmpClient": fuzzRtmpClient, "FuzzRtspClient": fuzzRtspClient, "FuzzHttpflvClient": fuzzHttpflvClient,
+}
+
+type seedCollector struct {
+	seeds [][]any
+	fn    reflect.Value
+}
+
+func (c *seedCollector) Add(args ...any) { c.seeds = append(c.seeds, args) }
+func (c *seedCollector) Fuzz(ff any)     { c.fn = reflect.ValueOf(ff) }
+
+var (
+	seedOnce  sync.Once
+	seedSets  = map[string]*seedCollector{}
+	seedNames []string
+)
+
+// parseGoCorpus reads one file of go's fuzz corpus format ("go test fuzz v1" + one Go literal per line; the C13
+// targets only use byte and []byte arguments).
+func parseGoCorpus(b []byte) ([]any, bool) {
+	lines := strings.Split(strings.TrimSpace(string(b)), "\n")
+	if len(lines) < 2 || !strings.HasPrefix(lines[0], "go test fuzz v1") {
+		return nil, false
+	}
+	var out []any
+	for _, l := range lines[1:] {
+		l = strings.TrimSpace(l)
+		switch {
+		case strings.HasPrefix(l, "[]byte(") && strings.HasSuffix(l, ")"):
+			str, err := strconv.Unquote(l[len("[]byte(") : len(l)-1])
+			if err != nil {
+				return nil, false
+			}
+			out = append(out, []byte(str))
+		case strings.HasPrefix(l, "byte(") && strings.HasSuffix(l, ")"):
+			r, _, _, err := strconv.UnquoteChar(strings.Trim(l[len("byte("):len(l)-1], "'"), 0)
+			if err != nil {
+				return nil, false
+			}
+			out = append(out, byte(r))
+		default:
+			return nil, false
+		}
+	}
+	return out, true
+}
+
+func loadSeeds() {
+	seedOnce.Do(func() {
+		for name, fn := range fuzzTargets {
+			c := &seedCollector{}
+			fn(c)
+			files, _ := filepath.Glob(filepath.Join("/verif/corpus/c13/fuzz", name, "*"))
+			sort.Strings(files)
+			for _, f := range files {
+				if b, err := os.ReadFile(f); err == nil {
+					if args, ok := parseGoCorpus(b); ok && len(args) == c.fn.Type().NumIn()-1 {
+						c.seeds = append(c.seeds, args)
+					}
+				}
+			}
+			seedSets[name] = c
+			seedNames = append(seedNames, name)
+		}
+		sort.Strings(seedNames)
+	})
+}
+
+// SeedCase names one seed of one target.
+type SeedCase struct {
+	Target string `json:"target"`
+	Index  int    `json:"index"`
+}
+
+var seedT *testing.T
+
+func runSeed(c SeedCase) (v *pbt.Violation) {
+	loadSeeds()
+	set := seedSets[c.Target]
+	if set == nil || len(set.seeds) == 0 {
+		return nil
+	}
+	args := set.seeds[c.Index%len(set.seeds)]
+	in := []reflect.Value{reflect.ValueOf(seedT)}
+	for _, a := range args {
+		in = append(in, reflect.ValueOf(a))
+	}
+	seedReplay = true
+	defer func() {
+		seedReplay = false
+		if r := recover(); r != nil {
+			switch x := r.(type) {
+			case seedViolation:
+				v = x.v
+			case seedSkip:
+			default:
+				panic(r)
+			}
+		}
+	}()
+	set.fn.Call(in)
+	return nil
+}
+
+func TestFuzzSeeds(t *testing.T) {
+	resetNotes()
+	seedT = t
+	loadSeeds()
+	pbt.Run(t, pbt.Spec[SeedCase]{
+		ID: "C13", Name: "fuzz-seed-replay", Isolate: true,
+		Gen: func(rt *rapid.T) SeedCase {
+			name := rapid.SampledFrom(seedNames).Draw(rt, "target")
+			n := len(seedSets[name].seeds)
+			if n == 0 {
+				n = 1
+			}
+			return SeedCase{Target: name, Index: rapid.IntRange(0, n-1).Draw(rt, "index")}
+		},
+		Run: runSeed,
+		Classify: func(c SeedCase) (bool, []string) {
+			return true, []string{"target:" + c.Target, lbl("seed:%s#%d", c.Target, c.Index)}
+		},
+		Quick: 40, Thorough: 200,
 	})
 }
